@@ -25,11 +25,11 @@ def _call(arg):
     return getattr(mod, fn)(task)
 
 
-def run_tasks(func_path, tasks, workers=None, chunksize=1, fresh_each=False):
+def run_tasks(func_path, tasks, workers=None, chunksize=1, fresh_each=False, force_pool=False):
     """Run func(task) for every task; returns results in task order. func_path = 'module:function'."""
     tasks = list(tasks)
     workers = min(workers or WORKERS, max(1, len(tasks)))
-    if workers <= 1 or os.environ.get("VERIF_SERIAL"):
+    if (workers <= 1 and not force_pool and not fresh_each) or os.environ.get("VERIF_SERIAL"):
         _init()
         return [_call((func_path, t)) for t in tasks]
     ctx = mp.get_context("fork")
